@@ -45,7 +45,8 @@ func (p *Program) muLK() *muAnalysis {
 		}
 	}
 	loggableSet := lk.cmdSetOf(loggable...)
-	replayers := map[string]bool{"loadAOF": true, "followHandleCommand": true}
+	// cmdMassInsert (dev mode) generates literal "set" commands and applies them like a replayer
+	replayers := map[string]bool{"loadAOF": true, "followHandleCommand": true, "cmdMassInsert": true}
 	lk.callCmds = func(from, to *Unit, cm cmdSet) cmdSet {
 		if to != cmdU {
 			return cm
@@ -62,7 +63,7 @@ func (p *Program) muLK() *muAnalysis {
 			}
 			return out
 		}
-		if from.Lit == nil && replayers[from.Fn.Obj.Name()] {
+		if replayers[from.Fn.Obj.Name()] {
 			return cm.and(loggableSet)
 		}
 		return cm
